@@ -2,7 +2,7 @@
 """tools/mkstrengthen.py C03 1 2 -> worktrees /tmp/ag-S03, /tmp/rp-S03 and task /tmp/task-S03.md for closing missed seeded changes."""
 import json, os, subprocess, sys
 pid = sys.argv[1]; ks = sys.argv[2:]
-tag = "S" + pid[1:]
+tag = os.environ.get("TAGPREFIX", "S") + pid[1:]
 ag, rp = f"/tmp/ag-{tag}", f"/tmp/rp-{tag}"
 if not os.path.exists(ag):
     subprocess.check_call(["git", "-C", "/verif", "worktree", "add", "-q", ag, "-b", f"ag/{tag}"])
